@@ -116,9 +116,15 @@ func overlayFromPatch(repo, patch string) (map[string][]byte, error) {
 		return nil, err
 	}
 	var files []string
-	for _, l := range strings.Split(string(data), "\n") {
+	created := map[string]bool{} // files the patch adds ("--- /dev/null"): nothing to copy, the overlay adds them to their package
+	lines := strings.Split(string(data), "\n")
+	for i, l := range lines {
 		if strings.HasPrefix(l, "+++ b/") {
-			files = append(files, strings.TrimPrefix(l, "+++ b/"))
+			f := strings.TrimPrefix(l, "+++ b/")
+			files = append(files, f)
+			if i > 0 && strings.HasPrefix(lines[i-1], "--- /dev/null") {
+				created[f] = true
+			}
 		}
 	}
 	if len(files) == 0 {
@@ -130,6 +136,12 @@ func overlayFromPatch(repo, patch string) (map[string][]byte, error) {
 	}
 	defer os.RemoveAll(tmp)
 	for _, f := range files {
+		if created[f] {
+			if _, err := os.Stat(filepath.Join(repo, f)); err == nil {
+				return nil, fmt.Errorf("patch no longer applies: %s exists already", f)
+			}
+			continue
+		}
 		src, err := os.ReadFile(filepath.Join(repo, f))
 		if err != nil {
 			return nil, fmt.Errorf("file %s of the patch is gone", f)
